@@ -3,9 +3,9 @@ import random
 import struct
 from enum import Enum
 
-NAMES = ["", "a", "Lead", "b" * 31, "c" * 32, "d" * 33, "e" * 40, "x" * 31 + "é", "x" * 30 + "éz", "x" * 30 + "€",
+NAMES = ["", "a", "Lead", " lead ", "{lead} }{", "trail\t", "b" * 31, "c" * 32, "d" * 33, "e" * 40, "x" * 31 + "é", "x" * 30 + "éz", "x" * 30 + "€",
          "ü" * 16, "ü" * 17, "x" * 29 + "\U0001f600", "x" * 28 + "\U0001f600", "中文名字", "tab\there", "q" * 100]
-TEXTS = [None, "", "dev", "Mïdi öut", "z" * 70]
+TEXTS = [None, "", "dev", "Mïdi öut", "z" * 70, " padded ", "\ttab", "x\u3000", "{lead} }{ {0}", "\U0001d11e\U0001f600"]
 
 
 def u32(rnd):
@@ -70,6 +70,8 @@ def set_common(rnd, mod, in_project=True):
     mod.midi_out_program = rnd.choice([-1, 0, 5, 127])
     mod.visualization = (rnd.randrange(5) + 32 * rnd.randrange(2) + 256 * rnd.randrange(8) + 65536 * rnd.randrange(256)
                          + 16777216 * rnd.randrange(4) + 67108864 * rnd.randrange(4))
+    if rnd.random() < 0.15:           # the all-zero word; words with the reserved bits SunVox itself sets (e.g. 0x9A3202C2)
+        mod.visualization = rnd.choice([0, 0x9A3202C2, int(mod.visualization) | 0xC0, int(mod.visualization) | 0x90000000])
     for name in list(type(mod).controllers):
         if rnd.random() < 0.3:
             mm = mod.controller_midi_maps[name]
@@ -234,6 +236,10 @@ def set_meta(rnd, mod, spec, depth):
         elif rnd.random() < 0.05:
             mod.mappings.values[i].module = rnd.choice([0, 200])
             mod.mappings.values[i].controller = rnd.randrange(50)
+        elif targets and rnd.random() < 0.05:      # an existing module, a controller index exactly at / just beyond its controller count
+            mi, tm = rnd.choice(targets)
+            mod.mappings.values[i].module = mi
+            mod.mappings.values[i].controller = len(type(tm).controllers) + rnd.choice([0, 0, 1])
     mod.user_defined_controllers = n
     try:
         mod.update_user_defined_controllers()
@@ -481,6 +487,12 @@ def rand_project(rnd, spec, nmods=None, depth=1, allow_meta=True, small=False, t
     p.selected_module, p.selected_generator = u32(rnd), i32(rnd)
     p.current_pattern, p.current_track, p.current_line = u32(rnd), u32(rnd), u32(rnd)
     p.receive_sync_midi, p.receive_sync_other = rnd.randrange(8), rnd.randrange(8)
+    if rnd.random() < 0.3:            # value coincidences between independent fields
+        for a, b in rnd.sample([("time_grid2", "time_grid"), ("initial_tpl", "initial_bpm"), ("modules_zoom", "modules_scale"),
+                                ("modules_y_offset", "modules_x_offset"), ("current_track", "current_pattern"),
+                                ("restart_position", "timeline_position"), ("modules_current_layer", "modules_layer_mask")], 3):
+            setattr(p, a, getattr(p, b))
+        p.receive_sync_other = p.receive_sync_midi
     p.based_on_version = rnd.choice([(2, 1, 2, 1), (2, 1, 2, 1), (1, 9, 4, 2), (1, 7, 0, 0), (2, 0, 0, 0), (1, 9, 5, 0)])
     if nmods is None:
         nmods = rnd.randrange(0, 4 if small else 9)
@@ -510,4 +522,11 @@ def rand_project(rnd, spec, nmods=None, depth=1, allow_meta=True, small=False, t
                                               flags_PFFF=rnd.choice([1, 3, 9])))
         else:
             p.attach_pattern(rand_pattern(rnd, small))
+    if rnd.random() < 0.25:           # clones of clones, of themselves, of empty positions
+        base = len(p.patterns)
+        p.attach_pattern(api.PatternClone(source=base + 1, x=4, y=8))          # (its source is the next clone)
+        p.attach_pattern(api.PatternClone(source=base, x=8, y=8))
+        p.attach_pattern(api.PatternClone(source=base + 2, x=12, y=8))         # itself
+        p.attach_pattern(None)
+        p.attach_pattern(api.PatternClone(source=base + 3, x=16, y=8))         # an empty position
     return p
